@@ -212,7 +212,13 @@ def run(w, S, spec):
         return []
     out = []
     hv = P.h(S["ends"], S["vl"], spec.get("seed", 0))
-    for mi, M in enumerate(sequences(n)):
+    seqs = sequences(n)
+    if spec.get("big"):
+        # big pools: the full member list in two orders plus a hash-chosen sample of the other ordered subsets
+        full = tuple(range(1, n + 1))
+        rest = sorted((m for m in seqs if len(m) not in (0, n)), key=lambda m: P.h(hv, m))[:10]
+        seqs = [(), full, tuple(reversed(full))] + rest
+    for mi, M in enumerate(seqs):
         if kind == "C16":
             for sorted_, dflt in itertools.product((0, 1), (0, 1)):
                 out.append(plain_probe(w, S, M, sorted_, dflt, (hv + mi) % 2))
